@@ -130,8 +130,17 @@ func verifyFunctions(w *World, keys []string, timeoutS int, twoSolver bool, scra
 func (e *Enc) coverObligations() []*Oblig {
 	var out []*Oblig
 	out = append(out, &Oblig{Name: "cover:pre", Kind: "cover", Fn: e.fn.String(), Reach: tTrue, NAssume: e.nEntryAsm, Src: "precondition satisfiable"})
+	var reaches []Term
+	maxAsm := e.nEntryAsm
 	for i, rp := range e.retPoints {
 		out = append(out, &Oblig{Name: fmt.Sprintf("cover:ret%d", i), Kind: "cover", Fn: e.fn.String(), Reach: rp.reach, NAssume: rp.nAsm, Src: "return reachable"})
+		reaches = append(reaches, rp.reach)
+		if rp.nAsm > maxAsm {
+			maxAsm = rp.nAsm
+		}
+	}
+	if len(reaches) > 0 {
+		out = append(out, &Oblig{Name: "cover:anyret", Kind: "cover", Fn: e.fn.String(), Reach: tOr(reaches...), NAssume: maxAsm, Src: "some return reachable (assumptions not contradictory)"})
 	}
 	return out
 }
@@ -161,6 +170,12 @@ func runCovers(res []*fnResult, scratch string, timeoutS int) {
 				if r.status == "unsat" {
 					j.o.Status = "failed"
 					j.o.Output = "assumptions are contradictory (vacuous proof): " + file
+					if strings.HasPrefix(j.o.Name, "cover:ret") {
+						// a single unreachable return is dead defensive code, not vacuity; cover:anyret decides
+						j.o.Status = "proved"
+						j.o.Detail = "unreachable"
+						os.Remove(file)
+					}
 				} else {
 					j.o.Status = "proved"
 					j.o.Detail = r.status
